@@ -10,6 +10,7 @@ import (
 	"encoding/json"
 	"fmt"
 	"net/http"
+	"os"
 	"strings"
 	"testing"
 	"time"
@@ -28,10 +29,11 @@ type c18State struct {
 	prefix string
 	seen   map[string]bool
 	ops    int
+	quiet  bool
 }
 
 func c18NewState(ctx *vfCtx, prefix string) *c18State {
-	return &c18State{ctx: ctx, prefix: prefix, seen: map[string]bool{}}
+	return &c18State{ctx: ctx, prefix: prefix, seen: map[string]bool{}, quiet: os.Getenv("VF_C18_DISCOVER") != ""}
 }
 
 func (s *c18State) call(op string, f func()) (panicked bool) {
@@ -43,6 +45,11 @@ func (s *c18State) call(op string, f func()) (panicked bool) {
 	}
 	fd := s.ctx.findings[len(s.ctx.findings)-1]
 	stem := fd.Sig[len(s.prefix)+len("/panic/"):]
+	if s.quiet {
+		s.ctx.findings = s.ctx.findings[:n]
+		s.ctx.Class("unjudged-panic/" + s.prefix + "/" + stem + "/via/" + op)
+		return panicked
+	}
 	if s.seen[fd.Sig] {
 		s.ctx.findings = s.ctx.findings[:n]
 		s.ctx.Class("again/" + stem)
@@ -108,7 +115,7 @@ type c18ReqCase struct {
 var c18ReqNow = time.UnixMilli(1700000000000)
 
 func c18ReqCheck(ctx *vfCtx, c c18ReqCase) {
-	s := c18NewState(ctx, "C18/fc-request")
+	s := c18NewState(ctx, "C18")
 	for _, h := range c.Auth {
 		var scheme string
 		var origin spec.ServerName
@@ -265,7 +272,7 @@ func c18RawEvent(s *c18State, tag, version string, raw []byte) {
 }
 
 func c18TypesCheck(ctx *vfCtx, c c18TypesCase) {
-	s := c18NewState(ctx, "C18/fc-types")
+	s := c18NewState(ctx, "C18")
 	ctx.Class("kind/" + c.Kind)
 	body := []byte(c.Body)
 	ok := false
